@@ -59,6 +59,13 @@ class Fn:
         for n in ast.walk(fn):
             if isinstance(n,ast.Name) and isinstance(n.ctx,ast.Store) and n.id not in loc and n.id not in self.params: loc.append(n.id)
             if isinstance(n,(ast.ListComp,ast.GeneratorExp,ast.SetComp,ast.DictComp)): pass
+        if getattr(mod,"sub_callbacks",False):
+            for n in ast.walk(fn):
+                if (isinstance(n,ast.Call) and isinstance(n.func,ast.Attribute) and n.func.attr=="sub" and len(n.args)==2 and isinstance(n.args[0],ast.Lambda)
+                        and len(n.args[0].args.args)==1
+                        and any(isinstance(z,ast.Name) and z.id==n.args[0].args.args[0].arg for z in ast.walk(n.args[0].body))):
+                    for nm in (n.args[0].args.args[0].arg,"reps_"):
+                        if nm not in loc and nm not in self.params: loc.append(nm)
         self.vars=self.params+loc
         self.is_method = cls is not None and self.params and self.params[0] in ("self",)
         # a method that calls .write(...) on a parameter (a file-like object modelled as the list of strings written): that parameter is returned too
@@ -257,6 +264,28 @@ class Fn:
                 fv=self.ex(f,binds); args=[self.ex(a,binds) for a in e.args]; t=self.tmp()
                 binds.append("%s <- py_call %s (VList [%s]) ;; "%(t,fv,";".join(args))); return t
             raise Unsupported("abstract method call "+f.attr)
+        # <param>.<method>(...) where the parameter is known to hold an object of a class of this module (hint): as self.<method>(...)
+        hints=getattr(self.mod,"param_classes",{}).get(self.fn.name,{})
+        if isinstance(f,ast.Attribute) and isinstance(f.value,ast.Name) and f.value.id in hints and f.value.id in self.vars:
+            C=hints[f.value.id]; k=self.mod.find_method(C,f.attr)
+            if k is None or self.mod.is_abstract(self.mod.classes[k]["methods"][f.attr]): raise Unsupported("method %s of %s"%(f.attr,C))
+            callee=self.mod.classes[k]["methods"][f.attr]
+            args=self.resolve_args(callee,e,binds,True); self.calls.add((k,f.attr))
+            t=self.tmp(); r=self.tmp(); binds.append("%s <- %s py_call fuel v_%s %s ;; "%(t,gname(k,f.attr),f.value.id," ".join(args)))
+            binds.append("p_ <- unpack2 %s ;; let '(%s, v_%s) := p_ in "%(t,r,f.value.id)); return r
+        # X.sub(lambda m: BODY, line): matches from the py_call parameter, one translated BODY per match, py_stitch
+        if (getattr(self.mod,"sub_callbacks",False) and isinstance(f,ast.Attribute) and f.attr=="sub" and len(e.args)==2 and isinstance(e.args[0],ast.Lambda)
+                and len(e.args[0].args.args)==1 and not e.keywords
+                and any(isinstance(n,ast.Name) and n.id==e.args[0].args.args[0].arg for n in ast.walk(e.args[0].body))):
+            self.mod.need_lib2=True
+            m=e.args[0].args.args[0].arg
+            X=self.ex(f.value,binds); L=self.ex(e.args[1],binds); tM=self.tmp()
+            binds.append("%s <- py_call (VFun (of_string \"finditer\")) (VList [%s;%s]) ;; items_ <- py_iter %s ;; let v_reps_ := (VList []) in "%(tM,X,L,tM))
+            sub=[]; tm=self.tmp(); sub.append("%s <- py_getitem x_ (VInt 2) ;; let v_%s := %s in "%(tm,m,tm))
+            a=self.ex(e.args[0].body,sub); ta=self.tmp()
+            sub.append("%s <- py_list_append v_reps_ %s ;; let v_reps_ := %s in "%(ta,a,ta))
+            binds.append("e_ <- py_for items_ (fun x_ %s => %sNormal %s) %s ;; let %s := e_ in "%(self.pat(),"".join(sub),self.env(),self.env(),self.pat()))
+            tr=self.tmp(); binds.append("%s <- py_stitch %s %s v_reps_ ;; "%(tr,L,tM)); return tr
         # a function imported from a module that has its own generated unit (replace_matching_item in anonymize_files.py -> G_fn_sir2)
         if isinstance(f,ast.Name) and f.id in getattr(self.mod,"xfuncs",{}):
             xm,coqmod=self.mod.xfuncs[f.id]; callee=xm.funcs[f.id]
@@ -487,7 +516,8 @@ class Fn:
         return "(* REFUSED by the translator: %s *)\nDefinition %s (py_call : pyval -> pyval -> res) (fuel:nat) %s : res := Exc Unsupported."%(reason.replace("*)","* )"),gname(self.cls,self.fn.name),ps)
 
 
-def translate_module(path, pymod, wanted=None, oracles=(), xmods=None, external=(), requires=(), method_oracles=(), xfuncs=None, thread_oracles=None, method_thread_oracles=(), io_lists=False):
+def translate_module(path, pymod, wanted=None, oracles=(), xmods=None, external=(), requires=(), method_oracles=(), xfuncs=None, thread_oracles=None, method_thread_oracles=(), io_lists=False,
+                     param_classes=None, sub_callbacks=False):
     """returns (coq text, translated names, {failed name: reason}).
     xmods: {python module name as written in the source: (python module object, Coq module holding its generated functions)};
     external: functions of this module that another generated unit already defines (named in `requires`): translated for their signature, not emitted"""
@@ -495,6 +525,7 @@ def translate_module(path, pymod, wanted=None, oracles=(), xmods=None, external=
     mod.xmods={k:(Mod(v[0].__file__,v[0]),v[1]) for k,v in (xmods or {}).items()}
     mod.xfuncs={k:(Mod(v[0].__file__,v[0]),v[1]) for k,v in (xfuncs or {}).items()}
     for k,(xm,cm) in mod.xfuncs.items(): xm.method_oracles=set(); xm.oracles=set()
+    mod.param_classes=dict(param_classes or {}); mod.sub_callbacks=sub_callbacks
     mod.thread_oracles=dict(thread_oracles or {}); mod.method_thread_oracles=set(method_thread_oracles); mod.io_lists=io_lists
     out=["(* GENERATED by tools/translate.py from %s -- do not edit *)"%path,"From Coq Require Import List ZArith String.","Require Import PyLib.","Import ListNotations.","Local Open Scope Z_scope.","Local Open Scope string_scope.","",
          "(* every generated function takes py_call: the call of a function-valued field (dispatcher / oracle) *)",""]
